@@ -99,7 +99,10 @@ class Shard:
 
     @property
     def w(self):
-        return self.worker("R")
+        # (a property whose inputs can make the compiler run away sets params["worker_timeout"]: one runaway input then
+        # costs that many seconds instead of the default 20 — it is inconclusive either way)
+        t = self.params.get("worker_timeout") if isinstance(self.params, dict) else None
+        return self.worker("R", timeout=t) if t else self.worker("R")
 
     def close(self):
         for w in self._workers.values():
